@@ -433,6 +433,12 @@ func driver(args []string) int {
 	fmt.Printf("runs=%d directed=%d nontrivial=%d distinct_shapes=%d distinct_digests=%d faults=%s wall=%.1fs violations=%d known=%d\n",
 		agg.Runs, agg.Directed, agg.NonTrivial, distinct, len(digests), mustJSON(agg.Faults), wall, violations, len(knownHit))
 	if !*noEvidence {
+		if p.Assumptions == nil {
+			p.Assumptions = []string{}
+		}
+		if agg.Samples == nil {
+			agg.Samples = []any{}
+		}
 		ev := map[string]any{
 			"property_id": p.ID,
 			"tier":        *tier,
